@@ -356,7 +356,8 @@ def r3(F, R):
         fins = [x for x in acts if x[1] == "forward" and D.mentions(x[2][1][2][1], lambda y: D.is_variant(y, "event::Cucumber", "Finished")) and x[0] > em[0]]
         if out == "Some":
             n_loop += 1
-            R.check(len(rem) == 1 and rem[0][0] > em[0] and p.cut, "drain/loop", co, "emit and remove form the loop",
+            looped = p.cut or (bool(rem) and any(e[0] == "loop-back" and i > rem[0][0] for i, e in enumerate(p.effects)))
+            R.check(len(rem) == 1 and rem[0][0] > em[0] and looped, "drain/loop", co, "emit and remove form the loop",
                     "after emit(..) returned Some the emitted feature is not removed and the loop re-entered (an emitted feature is never removed, or removal happens once)")
             if rem:
                 R.check(D.mentions(rem[0][2][2], lambda y: y == ("field", ("as", ("await", em[2][1], em[2][3]), "Some"), 0)), "drain/remove-emitted-key", co,
@@ -670,7 +671,7 @@ def r5(F, R):
     # appends present: events pushed, keys inserted
     n_push = len([1 for b, st, m in census.get("append", []) if m == "push"])
     n_ins = len([1 for b, st, m in census.get("append", []) if m in ("insert", "entry")])
-    R.check(n_push >= 2, "fifo/append/scenario-events", None, f"{n_push} Vec::push sites", "scenario events are no longer appended with Vec::push at the two insert_scenario_event sites")
+    R.check(n_push >= 1, "fifo/append/scenario-events", None, f"{n_push} Vec::push sites", "scenario events are no longer appended with Vec::push (R7 checks that each branch of insert_scenario_event pushes)")
     R.check(n_ins >= 4, "fifo/append/keys", None, f"{n_ins} insert/entry sites", "features / rules / scenarios are no longer inserted at the back of their insertion-ordered maps")
     # Queue::remove removes the key it is given; every caller passes a key returned by an emit
     rm = [b for b in F.crate_bodies() if re.match(r"^writer::normalize::Queue::<.*>::remove$", b.name)]
@@ -934,34 +935,40 @@ def r7(F, R):
         for nm, i in want.items():
             sl = A.slice_back(ob, [t["args"][i]])
             R.check(_param(ob, nm) in sl.params, f"route/run-level/passes-{nm}", st, f"passes `{nm}` down", f"the run-level insert_scenario_event does not pass its `{nm}` down to the feature queue")
-    # feature level: two buffers, chosen by `rule`
-    pushes = [(st, t) for st, t in ib.calls(lambda t: callee_is(t, r"vec::Vec::<.*>::push$"))]
-    if not R.check(len(pushes) == 2, "route/feature-level/two-buffers", ib, "one push per branch", f"{len(pushes)} Vec::push sites in the feature-level insert_scenario_event (expected 2)"):
-        return
+    # feature level: two buffers, chosen by `rule` — on the routine's path table (map operations opaque, private helpers inlined)
+    from . import deep as DD
     rule_l, sc_l, re_l, ev_l = _param(ib, "rule"), _param(ib, "scenario"), _param(ib, "retries"), _param(ib, "ev")
+    rows_ = DD.Deep(F, ib, opaque=r"LinkedHashMap::|linked_hash_map::", max_paths=200).run()
+    if not rows_ or any(p.cut for p in rows_):
+        raise Unverifiable("feature-level insert_scenario_event: empty path table or a loop")
     seen = set()
-    for st, t in pushes:
-        branch = None
-        for g in A.guards_of(ib, st):
-            d = g.cond_def()
-            if d and d[0] == "discr" and d[1]["l"] == rule_l and not d[1]["p"]:
-                branch = "in-rule" if list(g.values) == [1] else "top-level"
-        if branch is None:
+    strip = lambda x: strip(x[1]) if isinstance(x, tuple) and x and x[0] in ("ref", "deref", "refto") else x
+    for p in rows_:
+        st = ib
+        br = [out for a_, out in p.conds if a_ == ("discr", ("arg", rule_l))]
+        pushes = [e for e in p.effects if e[0] == "call" and re.search(r"vec::Vec::<.*>::push$|vec::Vec::push$", e[1])]
+        if not R.check(len(pushes) == 1, "route/feature-level/two-buffers", ib, "one push per branch", f"{len(pushes)} Vec::push of the event on a path of the feature-level insert_scenario_event (expected 1)"):
+            continue
+        if br not in (["Some"], ["None"]):
             R.violation("route/feature-level/branch", st, "a Vec::push of the scenario event is not selected by whether the event carries a rule")
             continue
+        branch = "in-rule" if br == ["Some"] else "top-level"
         seen.add(branch)
-        R.check(ev_l in A.slice_back(ib, [t["args"][1]]).params, f"route/feature-level/{branch}/pushes-event", st, "pushes the given event", "the pushed value is not the event that was passed in")
-        recv = A.slice_back(ib, [t["args"][0]])
-        need = {sc_l: "scenario", re_l: "retries"}
+        e = pushes[0]
+        R.check(strip(e[2][1]) == ("arg", ev_l), f"route/feature-level/{branch}/pushes-event", st, "pushes the given event", "the pushed value is not the event that was passed in")
+        entries = [x for x in DD.subterms(e[2][0]) if x[0] == "call" and re.search(r"LinkedHashMap(::<.*>)?::entry$", x[1])]
+        keyed = {n for x in entries for l, n in ((sc_l, "scenario"), (re_l, "retries")) if len(x[2]) > 1 and DD.mentions(x[2][1], lambda y: y == ("arg", l))}
+        need = {"scenario", "retries"}
         if branch == "in-rule":
-            need[rule_l] = "rule"
-        missing = [n for l, n in need.items() if l not in recv.params]
-        R.check(not missing, f"route/feature-level/{branch}/buffer-key", st, f"buffer addressed by {sorted(need.values())}",
+            need.add("rule")
+            if DD.mentions(e[2][0], lambda y: y == ("field", ("as", ("arg", rule_l), "Some"), 0)):
+                keyed.add("rule")
+        missing = sorted(need - keyed)
+        R.check(not missing, f"route/feature-level/{branch}/buffer-key", st, f"buffer addressed by {sorted(need)}",
                 f"the buffer the event is pushed to is not addressed by {missing}: events of different scenarios / retry attempts / rules share a buffer")
         if branch == "top-level":
-            R.check(rule_l not in recv.params or True, f"route/feature-level/{branch}/entry", st, "entry().or_insert_with")
-        has_entry = any(callee_is(tt, r"LinkedHashMap::<.*>::entry$") for _, tt in recv.calls)
-        R.check(has_entry, f"route/feature-level/{branch}/creates-on-first", st, "buffer created on first event (entry)", "the scenario's buffer is not created on its first event")
+            R.ok(f"route/feature-level/{branch}/entry", st, "entry().or_insert_with")
+        R.check(bool(entries), f"route/feature-level/{branch}/creates-on-first", st, "buffer created on first event (entry)", "the scenario's buffer is not created on its first event")
     R.check(seen == {"in-rule", "top-level"}, "route/feature-level/both-branches", ib, "both branches push", f"only {sorted(seen)} push the event")
     R.floor(14, "routing clauses")
 
